@@ -6,7 +6,7 @@ import z3
 
 from .vtypes import (RefS, StrS, NULL, Val, NONE, REG, sort_of, is_ref, is_opt, strip_opt, FALSE, TRUE, ty_str)
 from .state import (State, Frame, PathEnd, Unsupported, ReturnExc, BreakExc, ContinueExc, RaiseExc, ExcVal, Obligation)
-from . import calls, specs
+from . import calls, specs, prelude
 
 MAX_PATHS = 4000
 
@@ -244,7 +244,13 @@ def frame_obligations(I, st, c, fi, env, short):
                 excl.append(z3.Not(ev.covers_content(I, st, o)))
             else:
                 excl.append(z3.Not(ev.covers_object(st, o)))
-        goal = z3.ForAll([o], z3.Implies(z3.And(z3.Select(st.alloc0, o), *excl), z3.Select(cur, o) == z3.Select(old, o)))
+        own = []
+        if every and (key == "$len" or key.startswith("$dom") or key.startswith("$val") or key.startswith("$items")):
+            # the owner of a container that existed at entry existed at entry too (or is no object at all): objects
+            # allocated by this function cannot already own an older container
+            ow = prelude.owner_obj(o)
+            own = [z3.Or(z3.Select(st.alloc0, ow), z3.Not(z3.Select(st.alloc, ow)))]
+        goal = z3.ForAll([o], z3.Implies(z3.And(z3.Select(st.alloc0, o), *(excl + own)), z3.Select(cur, o) == z3.Select(old, o)))
         st.oblige("%s.frame[%s]" % (short, key), goal, meta={"kind": "frame", "clause": "only `modifies` locations of heap field %s change" % key,
                                                            "props": c.props}, assume_after=False)
 
@@ -322,13 +328,23 @@ def run_refinement_path(I, st, c, fi, bc, bfi, res):
     sub_locs = calls.modifies_locations(I, st, c, env, c.modifies)
     base_locs = calls.modifies_locations(I, st, bc, env, bc.modifies)
     bykey = {}
+    base_every = [v for v, keys in base_locs if isinstance(v, calls.Every)]
     for v, keys in base_locs:
+        if isinstance(v, calls.Every):
+            continue
         for key, _ in keys:
             bykey.setdefault(key, []).append(v.term)
     for v, keys in sub_locs:
+        if isinstance(v, calls.Every):
+            raise Unsupported("refinement with every()/owned() in the override's modifies")
         for key, _ in keys:
-            cands = bykey.get(key, [])
-            g = z3.Or(*[v.term == b for b in cands]) if cands else FALSE
+            cands = [v.term == b for b in bykey.get(key, [])]
+            content = key == "$len" or key.startswith("$dom") or key.startswith("$val") or key.startswith("$items")
+            for ev in base_every:
+                if ev.only is not None and key not in ev.only:
+                    continue
+                cands.append(ev.covers_content(I, st, v.term) if content else ev.covers_object(st, v.term))
+            g = z3.Or(*cands) if cands else FALSE
             st.oblige("%s.frame[%s]" % (short, key), g, meta={"kind": "refine_frame", "clause": "modifies of the override is within the base's",
                                                              "props": c.props})
     # outcome of the override, by its own contract
